@@ -518,6 +518,12 @@ class Monitor:
                     lost = [x for x in lost if x not in exp_loop[sid]]
                 if lost:
                     self.add("C02", "lost-step", f"{sid} lost demanded step(s) {lost[:3]}", sim=sid)
+                    if T.depth(sid) >= 2 and any(c.get("weak") for c in T.conns):
+                        # a sub-step of a same-time loop that is silently dropped cuts the loop
+                        # short: it is neither completed nor stopped with the guard's error
+                        self.add("C09", "loop-cut-short",
+                                 f"{sid} never performed the demanded sub-step(s) {lost[:3]} although "
+                                 f"run() returned normally", sim=sid)
                 if self.cur.get(sid):
                     self.add("C05", "in-flight-at-end", f"{sid} still in flight at end", sim=sid)
         elif result[0] == "exc" and result[1] == "SimulationError" and (
@@ -564,6 +570,14 @@ class Monitor:
             if result[0] == "deadlock" and self.cfg.get("lazy", True) and T.group_reentry():
                 cls = "lazy-wait-across-group-reentry"
             self.add("C05", _outcome_kind(result), f"run() ended with {result}", cls=cls)
+            refused = result[0] == "exc" and result[1] == "ScenarioError" and any(
+                not w[1] for w in getattr(self, "last_async", {}).values())
+            # (a request without an async_requests connection is refused with a ScenarioError,
+            # which for an in-process simulator ends the run: the expected outcome there)
+            if any(c.get("async") for c in T.conns) and not refused:
+                self.add("C16", "run-aborted",
+                         f"run() ended with {result[:2]}: values set by the agents afterwards can "
+                         f"never be delivered", cls=cls)
             if not exp_loop and any(c.get("weak") for c in T.conns) \
                     and result[0] in ("deadlock", "livelock"):
                 self.add("C09", "settling-loop-did-not-complete",
